@@ -65,7 +65,7 @@ func NewParser(l *Lexer) *Parser {
 	p.prefixParseFns = map[TokenType]prefixParseFn{}
 	p.registerPrefix(IDENT, p.parseIdentifier)
 	p.registerPrefix(NOT, p.parsePrefixExpression)
-	p.registerPrefix(LPAREN, p.parseGroupedExpression)
+	p.registerPrefix(LPAREN, p.parseGroupedCondition)
 
 	p.infixParseFns = make(map[TokenType]infixParseFn)
 	p.registerInfix(EQ, p.parseInfixExpression)
@@ -178,6 +178,20 @@ func (p *Parser) parseGroupedExpression() Expression {
 	exp := p.parseExpression(precedenceValueLowset)
 
 	if !p.expectPeek(RPAREN) {
+		return nil
+	}
+
+	return exp
+}
+
+// parseGroupedCondition parses ( condition ): parentheses group conditions, not the operands of a comparison
+func (p *Parser) parseGroupedCondition() Expression {
+	exp := p.parseGroupedExpression()
+
+	switch exp.(type) {
+	case *Identifier, *IndexExpression:
+		p.errors = append(p.errors, fmt.Sprintf("Syntax error; parentheses must enclose a condition, got the operand %s", exp.String()))
+
 		return nil
 	}
 
